@@ -127,6 +127,9 @@ class Time(object):
             The resulting time as a Time instance.
         """
         if not isinf(other):
+            if isinf(self._quotient):
+                # An infinite time stays infinite (divmod(inf, 1.0) would yield nan).
+                return Time(self._quotient, self._remainder)
             add_quotient, new_remainder = divmod(self._remainder + other, 1.0)
             return Time(self._quotient + add_quotient, new_remainder)
         else:
